@@ -80,7 +80,12 @@ def gen_spec(rng, i, kind=None):
 
 def environ_of(spec):
     m, kind = spec['m'], spec['kind']
-    headers = {'X-M': 'h' + m, 'Cookie': f'c=c{m}; d=d{m}'}
+    import base64
+    from ombott.common_helpers import cookie_encode
+    signed = cookie_encode(('s', 'sv' + m), 'k3y').decode()
+    headers = {'X-M': 'h' + m, 'Cookie': f'c=c{m}; d=d{m}; s="{signed}"',
+               'Authorization': 'Basic ' + base64.b64encode(f'u{m}:p{m}'.encode()).decode(),
+               'X-Forwarded-For': f'10.0.0.{len(m)}, 10.1.1.1', 'X-Requested-With': 'XMLHttpRequest' if len(m) % 2 else 'other'}
     method, path, kw = 'GET', None, {}
     body = None
     if kind == 'echo_get':
